@@ -96,6 +96,12 @@ C07_FailOnlyIfEmpty(j, o) ==
      IN \A q \in PinnedFor(L, s) \cup UnpinnedAuto(L) : ~Offers(L, pre, q, s, r)
 
 ----------------------------------------------------------------------------
+(* C03, allocator level: gaining the address of the missing family keeps the address already held *)
+C03_AdditionalKeeps(o) ==
+  (o.ok /\ o.act.op = "AllocateAdditional") =>
+     LET m == Mem(o)  s == o.act.s IN
+     m[s] # NULL /\ Len(m[s].ips) = 2 /\ o.act.existing \in Range(m[s].ips) /\ o.ret # <<>> /\ o.ret[1] \in Range(m[s].ips)
+
 (* C11 *)
 SetOf(seq) == Range(seq)
 
@@ -155,6 +161,7 @@ Fails(k) ==
   (IF C02_AutoChoice(j, o) THEN {} ELSE {"C02.AutoChoice"}) \cup
   (IF C02_ProbeUsable(o) THEN {} ELSE {"C02.ProbeUsable"}) \cup
   (IF C07_FailOnlyIfEmpty(j, o) THEN {} ELSE {"C07.FailOnlyIfEmpty"}) \cup
+  (IF C03_AdditionalKeeps(o) THEN {} ELSE {"C03.AdditionalKeeps"}) \cup
   (IF C11_Keys(o) THEN {} ELSE {"C11.Keys"}) \cup
   (IF C11_Ports(o) THEN {} ELSE {"C11.Ports"}) \cup
   (IF C11_SvcsOn(o) THEN {} ELSE {"C11.SvcsOn"}) \cup
